@@ -262,8 +262,9 @@ fn c05_pack_entry_corner_cases() {
 fn concrete_archive(bytes: &[u8]) -> BinArchive {
     let mut a = BinArchive::new(Endian::Little);
     a.allocate_at_end(bytes.len());
-    if !bytes.is_empty() {
-        keep(a.write_bytes(0, bytes)).unwrap();
+    // byte-wise stores at constant indices stay constant for CBMC; a bulk copy would not
+    for i in 0..bytes.len() {
+        keep(a.write_u8(i, bytes[i])).unwrap();
     }
     a
 }
@@ -279,8 +280,17 @@ fn concrete_archive(bytes: &[u8]) -> BinArchive {
 #[kani::stub(encoding_rs::Encoding::decode, crate::stubs::decode_ascii_model)]
 #[kani::stub(encoding_rs::Encoding::encode, crate::stubs::encode_ascii_model)]
 fn c05_text_archive_walk() {
+    // one call per arm with a literal argument: inside text_walk everything is concrete
     let sel: u8 = kani::any();
-    kani::assume(sel < 7);
+    kani::assume(sel < 4);
+    if sel == 0 { text_walk(0); }
+    if sel == 1 { text_walk(1); }
+    if sel == 2 { text_walk(2); }
+    if sel == 3 { text_walk(3); }
+    kani::cover!(sel == 1);
+}
+
+fn text_walk(sel: u8) {
     let unicode = sel == 4 || sel == 6;
     let format = if unicode { TextArchiveFormat::Unicode } else { TextArchiveFormat::ShiftJIS };
     let mut a = match sel {
@@ -303,12 +313,15 @@ fn c05_text_archive_walk() {
     }
     if sel == 1 {
         assert!(matches!(&t, Some(x) if x.get_message("K").as_deref() == Some("hi")), "C05: a labelled message is read back under its key");
+        if let Some(t) = &t {
+            let s = keep(t.serialize());
+            assert!(s.is_some(), "C05: an accepted archive must re-serialize");
+            std::mem::forget(s);
+        }
     }
-    if let Some(t) = &t {
-        let s = keep(t.serialize());
-        std::mem::forget(s);
+    if sel == 4 {
+        assert!(t.is_some(), "C05: a terminated UTF-16 message is accepted");
     }
-    kani::cover!(sel == 4 && t.is_some());
     std::mem::forget(t);
     std::mem::forget(a);
 }
@@ -316,13 +329,32 @@ fn c05_text_archive_walk() {
 // @tier quick
 // @timeout 1200
 // @mem 12
-// @bounds asset-binary and animation-set readers over concrete archives: empty; 4 zero bytes; flags + a short record with flag byte 0xFF...; flags + extended-form marker with truncated record; aset with and without the table label (solver-chosen arm)
+// @bounds text-archive walk over concrete archives: UTF-16 "A\\0\\0\\0" with key label; 5 bytes of Shift-JIS data (unaligned tail); 9 bytes of UTF-16 data ending inside a code unit (solver-chosen arm)
+// @claims as c05_text_archive_walk: data that ends inside a message or a code unit is an error, never a panic
+// @assume encoding_rs encode/decode replaced by the 7-bit model (stubs.rs)
+#[kani::proof]
+#[kani::unwind(14)]
+#[kani::stub(encoding_rs::Encoding::decode, crate::stubs::decode_ascii_model)]
+#[kani::stub(encoding_rs::Encoding::encode, crate::stubs::encode_ascii_model)]
+fn c05_text_archive_walk_b() {
+    let sel: u8 = kani::any();
+    kani::assume(sel >= 4 && sel < 7);
+    if sel == 4 { text_walk(4); }
+    if sel == 5 { text_walk(5); }
+    if sel == 6 { text_walk(6); }
+    kani::cover!(sel == 6);
+}
+
+// @tier quick
+// @timeout 1200
+// @mem 12
+// @bounds asset-binary and animation-set readers over the empty archive; animation-set reader over small archives with and without the table label (solver-chosen arm)
 // @claims AssetBinary::from_archive and ASetFile::from_archive terminate with Ok or Err on malformed small archives (missing flags word, truncated records, missing label, table running past the end), never a panic
 #[kani::proof]
 #[kani::unwind(14)]
 fn c05_asset_and_aset_readers() {
     let sel: u8 = kani::any();
-    kani::assume(sel < 6);
+    kani::assume(sel < 3);
     if sel == 0 {
         let a = concrete_archive(&[]);
         assert!(keep(AssetBinary::from_archive(&a)).is_none(), "C05: an asset binary without even the flags word must be rejected");
@@ -330,38 +362,51 @@ fn c05_asset_and_aset_readers() {
         std::mem::forget(a);
     }
     if sel == 1 {
+        let mut a = concrete_archive(&[4, 0, 0, 0, 0, 0, 0, 0, 0, 1, 0, 0]);
+        keep(a.write_label(12, "AnimClipNameTable")).unwrap();
+        assert!(keep(mila::ASetFile::from_archive(&a)).is_none(), "C05: a clip table running past the end must be rejected");
+        std::mem::forget(a);
+    }
+    if sel == 2 {
+        let a = concrete_archive(&[4, 0, 0, 0, 0, 0, 0, 0]);
+        assert!(keep(mila::ASetFile::from_archive(&a)).is_none(), "C05: an animation-set archive without the table label must be rejected");
+        std::mem::forget(a);
+    }
+    kani::cover!(sel == 1);
+}
+
+// @tier quick
+// @timeout 1200
+// @mem 16
+// @bounds asset-binary reader over concrete archives: 4 zero bytes; flags + a short record announcing more strings than the data holds; flags + an extended-form record cut short (solver-chosen arm)
+// @claims AssetBinary::from_archive ends the spec list at the first malformed or truncated record and returns Ok, never a panic
+#[kani::proof]
+#[kani::unwind(14)]
+fn c05_asset_binary_reader() {
+    let sel: u8 = kani::any();
+    kani::assume(sel < 3);
+    if sel == 0 {
         let a = concrete_archive(&[0, 0, 0, 0]);
         let r = keep(AssetBinary::from_archive(&a));
         assert!(matches!(&r, Some(b) if b.specs.is_empty()), "C05: flags word only: no specs");
         std::mem::forget(r);
         std::mem::forget(a);
     }
-    if sel == 2 {
+    if sel == 1 {
         let a = concrete_archive(&[1, 0, 0, 0, 0xFE, 0xFF, 0xFF, 0xFF, 0, 0, 0, 0]);
         let r = keep(AssetBinary::from_archive(&a));
         assert!(matches!(&r, Some(b) if b.specs.is_empty()), "C05: a record announcing more strings than the data holds is dropped, not a panic");
         std::mem::forget(r);
         std::mem::forget(a);
     }
-    if sel == 3 {
+    if sel == 2 {
         let a = concrete_archive(&[1, 0, 0, 0, 0x01, 0, 0, 0, 0xFF, 0xFF, 0xFF]);
         let r = keep(AssetBinary::from_archive(&a));
         assert!(r.is_some(), "C05: a truncated extended record ends the list, not a panic");
         std::mem::forget(r);
         std::mem::forget(a);
     }
-    if sel == 4 {
-        let mut a = concrete_archive(&[4, 0, 0, 0, 0, 0, 0, 0, 0, 1, 0, 0]);
-        keep(a.write_label(12, "AnimClipNameTable")).unwrap();
-        assert!(keep(mila::ASetFile::from_archive(&a)).is_none(), "C05: a clip table running past the end must be rejected");
-        std::mem::forget(a);
-    }
-    if sel == 5 {
-        let a = concrete_archive(&[4, 0, 0, 0, 0, 0, 0, 0]);
-        assert!(keep(mila::ASetFile::from_archive(&a)).is_none(), "C05: an animation-set archive without the table label must be rejected");
-        std::mem::forget(a);
-    }
-    kani::cover!(sel == 3);
+    kani::cover!(sel == 2);
 }
 
 // @tier quick
